@@ -10,6 +10,6 @@ PROPS = {
     'C11': ['mpgverif.harness.c11_coords', 'mpgverif.harness.c11_gene', 'mpgverif.harness.c11_ondisk'],
     'C12': ['mpgverif.harness.c12_index'],
     'C04': ['mpgverif.harness.callvariant_loop', 'mpgverif.harness.c12_index'],
-    'C06': ['mpgverif.harness.callvariant_loop'],
+    'C06': ['mpgverif.harness.callvariant_loop', 'mpgverif.harness.c12_index'],
     'C07': ['mpgverif.harness.callvariant_loop', 'mpgverif.harness.c07_wrapper'],
 }
